@@ -29,6 +29,11 @@ def tname(k, i):
     return "Case%dType%s" % (k, LET[i - 1])
 
 
+def pkg_of(k, i):
+    """every second case spreads its types over three packages (generation order between packages must not matter)"""
+    return PKG if k % 2 == 0 else "%s.p%d" % (PKG, i)
+
+
 def build_ir(cases):
     types = []
     for k, c in enumerate(cases):
@@ -40,13 +45,13 @@ def build_ir(cases):
                 elif f == 0:
                     fs.append(ir.field("i%d" % pos, P("INTEGER")))
                 else:
-                    fs.append(ir.field("r%d" % pos, ir.optional(ir.ref(tname(k, f), PKG))))
-            types.append(ir.object_(tname(k, i), fs, package=PKG))
+                    fs.append(ir.field("r%d" % pos, ir.optional(ir.ref(tname(k, f), pkg_of(k, f)))))
+            types.append(ir.object_(tname(k, i), fs, package=pkg_of(k, i)))
     return ir.definition(types=types)
 
 
 def snake(k, i):
-    return "case%d_type_%s" % (k, LET[i - 1].lower())
+    return ("" if k % 2 == 0 else "p%d/" % i) + "case%d_type_%s" % (k, LET[i - 1].lower())
 
 
 def tlc_cases(tier, seed, pid=PID):
@@ -63,7 +68,7 @@ def run(tier, seed):
     r = tlc_cases(tier, seed)
     if r.violated:
         out.model_drift("model:%s" % r.violated, "TLC reports %s" % r.violated)
-    for cfg, inv in (("MCDerives_warm.cfg", "Functional"), ("MCDerives_orderdep.cfg", "OrderIndependent")):
+    for cfg, inv in (("MCDerives_warm.cfg", "Functional"), ("MCDerives_genorder.cfg", "Functional"), ("MCDerives_orderdep.cfg", "OrderIndependent")):
         rm = vc.tlc(PID, "MCDerives", cfg, workers=2, timeout_s=300, coverage=False, keep_cases=False)
         if inv not in (rm.violated or []):
             raise vc.ToolError("spec self-test failed: %s must violate %s" % (cfg, inv))
@@ -87,7 +92,11 @@ def run(tier, seed):
         if p.returncode != 0:
             out.violation("X02:generate", "generation failed: %s" % p.stderr[-300:], {"ir_file": irp})
             return out.finish()
-        trees.append({fn: open(os.path.join(od, fn)).read() for fn in sorted(os.listdir(od))})
+        tree = {}
+        for dp, _, fns in os.walk(od):
+            for fn in fns:
+                tree[os.path.relpath(os.path.join(dp, fn), od)] = open(os.path.join(dp, fn)).read()
+        trees.append(tree)
     for n in (1, 2):
         if trees[n] != trees[0]:
             diff = [fn for fn in trees[0] if trees[n].get(fn) != trees[0][fn]]
